@@ -476,3 +476,13 @@ LEVEL_NOTE = ('Quantifier: the theorems cover stacks of any depth (the property 
 #                initial skip computed in u16 (caught by C08_targets tok only: needs display-scale areas)
 #   core/src/draw_target/mod.rs  default fill_solid with bounding_box() as area ; default clear with an origin-based
 #                rectangle ; default fill_contiguous clipping the area before zipping     (also caught by C01)
+
+# Round 2 (2026-09-28), after the second audit (notes/audit2/C03.md), re-run on scratch worktrees; all caught by ./check C03:
+#   contiguous.rs initial skip truncated to u16 (no panic, wrong colours at display scale): 36-43 correspondence lines and
+#                12-20 search lines per seed + corpus (before: 0 / 0); the overflow-checked `as u16 * as u16` form: PANIC
+#   seeded C03-A (crop origin not intersected): ~2200 correspondence / ~1650 search lines per seed, 5 corpus lines
+#   seeded C03-B (empty clip leaks its top-left pixel): 137-183 correspondence / 43-52 search lines per seed, 5 corpus
+#                lines (before: 4-12 / 0-5)
+#   draw_target/mod.rs DrawTargetExt::cropped pre-clipping the area to an origin box; Translated::clear filling its own
+#                (translated) bounding box on the parent; ColorConverted::clear as fill_solid(parent box) (same pixels,
+#                different call: reported by the call log as correspondence-broken)
